@@ -81,9 +81,12 @@ class EmbeddedSignalling(BitsInterface):
         assert (
             len(bits) == 16
         ), "EMB (Embedded Signalling) should be exactly 16 bits long"
-        return EmbeddedSignalling(
+        emb: EmbeddedSignalling = EmbeddedSignalling(
             colour_code=ba2int(bits[0:4]),
             preemption_and_power_control_indicator=bits[4],
             link_control_start_stop=ba2int(bits[5:7]),
             emb_parity=ba2int(bits[7:16]),
         )
+        # the verdict is about the received word, a nulled parity is regenerated but not vouched for
+        emb.emb_parity_ok = QuadraticResidue1676.check(bits)
+        return emb
